@@ -1,5 +1,6 @@
 import CssVerif.Lemmas.Codec
 import CssVerif.Lemmas.CodecInc
+import CssVerif.Lemmas.CodecEnc
 /-!
 # C07 — CSS codec: detection follows CSS 2.1 §4.4, early answers are never revised
 
@@ -134,55 +135,8 @@ theorem fix_never_revised (p ext enc r : List Nat) (b : Bool)
 
 /-- the text-side detector (`@charset` only) never revises either -/
 theorem detectUnicode_never_revised (p ext : List Nat) (b : Bool) (r : Enc × Bool)
-    (h : detectUnicode p false = some r) : detectUnicode (p ++ ext) b = some r := by
-  unfold detectUnicode at *
-  by_cases hp : prefix10.isPrefixOf p = true
-  · have hp' : prefix10.isPrefixOf (p ++ ext) = true := by
-      rw [List.isPrefixOf_iff_prefix] at *
-      exact hp.trans (List.prefix_append p ext)
-    have hlen : 10 ≤ p.length := by
-      rw [List.isPrefixOf_iff_prefix] at hp
-      have := hp.length_le; simp [prefix10] at this; omega
-    simp only [hp, hp', if_true] at *
-    have d10 : (p ++ ext).drop 10 = p.drop 10 ++ ext := by
-      rw [List.drop_append_of_le_length hlen]
-    cases hq : findQuote (p.drop 10) with
-    | none => simp [hq] at h
-    | some k =>
-      have hk := findQuote_lt _ _ hq
-      simp only [hq] at h
-      simp only [d10, findQuote_append _ ext k hq]
-      rw [List.take_append_of_le_length (by omega)]; exact h
-  · simp only [hp, Bool.false_eq_true, if_false, Bool.false_or] at h
-    have hnp : isPrefixOf10 p = false := by
-      cases hx : isPrefixOf10 p with
-      | false => rfl
-      | true => simp [hx] at h
-    simp only [hnp, Bool.not_false, if_true] at h
-    have hp' : prefix10.isPrefixOf (p ++ ext) = false := by
-      cases hq : prefix10.isPrefixOf (p ++ ext) with
-      | false => rfl
-      | true =>
-        rw [List.isPrefixOf_iff_prefix] at hq
-        by_cases hlen : prefix10.length ≤ p.length
-        · have := List.prefix_of_prefix_length_le hq (List.prefix_append p ext) hlen
-          rw [← List.isPrefixOf_iff_prefix] at this
-          exact absurd this hp
-        · have := List.prefix_of_prefix_length_le (List.prefix_append p ext) hq (by omega)
-          unfold isPrefixOf10 at hnp
-          rw [← List.isPrefixOf_iff_prefix] at this
-          rw [this] at hnp; cases hnp
-    have hnp' : isPrefixOf10 (p ++ ext) = false := by
-      cases hx : isPrefixOf10 (p ++ ext) with
-      | false => rfl
-      | true =>
-        unfold isPrefixOf10 at *
-        rw [List.isPrefixOf_iff_prefix] at hx
-        have := (List.prefix_append p ext).trans hx
-        rw [← List.isPrefixOf_iff_prefix] at this
-        rw [this] at hnp; cases hnp
-    simp only [hp', Bool.false_eq_true, if_false, hnp', Bool.not_false, Bool.or_true, if_true]
-    exact h
+    (h : detectUnicode p false = some r) : detectUnicode (p ++ ext) b = some r :=
+  detectUnicode_stable p ext b r h
 
 /-- T7.5 chunking invariance of the incremental decoder: for EVERY way of cutting the byte stream into
 chunks (any number, any sizes, cuts inside the BOM, inside the `@charset` rule, empty chunks), for every
@@ -213,10 +167,23 @@ theorem decoder_output_is_prefix (I : Inner) (given : Option Name) (force : Bool
   rw [key]
   simp [List.append_assoc]
 
+/-- T7.5 (encoder side): for EVERY way of cutting the text into chunks and every `encoding` argument,
+`IncrementalEncoder` produces exactly the bytes of one-shot `encode` — including cuts inside the
+`@charset` rule, texts ending inside the rule, and the utf-8-sig name rewriting. -/
+theorem encoder_chunking (I : InnerEnc) (given : Option Name) (cs : List (List Nat)) :
+    erunAll I given cs = encodeOneShot I given cs.flatten := by
+  unfold erunAll
+  have h0 : EInv I given [] [] (.waiting given []) := ⟨rfl, rfl, rfl⟩
+  have h1 := erunChunks_inv I given cs [] [] _ h0
+  have h2 := efinal_step I given _ _ _ h1
+  simpa using h2
+
 /-! non-vacuity: the hypotheses above are met by ordinary inputs -/
 /-- an inner codec satisfying the `Inner` laws exists (identity, e.g. latin-1 on bytes) -/
 def idInner : Inner := ⟨fun _ b _ => b, fun _ a b _ => ⟨b, rfl⟩, fun _ => rfl⟩
 example : runAll idInner none true [[0x40, 0x63], [0x68]] = [0x40, 0x63, 0x68] := by decide
+def idInnerEnc : InnerEnc := ⟨fun _ b _ => b, fun _ a b _ => ⟨b, rfl⟩, fun _ => rfl⟩
+example : erunAll idInnerEnc none [[0x40, 0x63], [0x68]] = [0x40, 0x63, 0x68] := by decide
 example : fixEncoding [0x61, 0x62] [0x78] false = some [0x61, 0x62] := by decide
 example : detectUnicode [0x61] false = some (.utf8, false) := by decide
 example : detect [0x40, 0x63] false = none := by decide
